@@ -84,6 +84,9 @@ func cmdRun(args []string) {
 	for _, v := range res.Aborts {
 		fmt.Printf("  ABORT %s %s\n", v.Label, v.Detail)
 	}
+	for _, o := range res.Observes {
+		fmt.Printf("  OBSERVE %s = %s\n", o.Label, o.Detail)
+	}
 	if *verbose {
 		for k, v := range res.Funcs {
 			fmt.Printf("  fn %s x%d\n", k, v)
